@@ -367,6 +367,9 @@ func c15Class(v c15Verdict) string {
 		return "double-glob-decorates-vars-or-classes"
 	case steps && f["glob_single"]+f["glob_double"] > 0:
 		return "step-shares-glob-applied-set-with-base"
+	case f["glob_triple"] > 0 && f["glob_sets_primary"] >= 2 && (k == "scenarios" || k == "steps"):
+		// two globs set the primary; the later one is declared in the inheriting board
+		return "triple-primary-glob-reapplied-over-later-glob-value-in-" + k
 	case f["glob_triple"] > 0 && f["glob_sets_primary"] == 0 && (k == "scenarios" || k == "steps"):
 		// (a glob that sets the object's primary is protected by ignoreLazyGlob; only attribute
 		// globs are known to be re-applied over explicit values)
